@@ -382,7 +382,9 @@ def cases(tier, seed=0):
         if tier == "thorough":
             out.append(Pure(fn=fn, types="sc"))
     # deliberately invalid arguments: the call raises (or not) - state must be unchanged either way
-    for fn in ("gradient", "esp", "stress"):
+    # a matrix that is not exactly symmetric: functions that validate it raise, the others return - the
+    # caller's matrix must be left alone either way
+    for fn in ("gradient", "esp", "stress", "deriv_density", "force", "ehrenfest_hessian", "laplacian", "hessian"):
         out.append(Pure(fn=fn, invalid="asym"))
     for fn in ("eval", "eval_deriv", "point_charge", "esp", "density"):
         out.append(Pure(fn=fn, invalid="shape"))
